@@ -514,6 +514,7 @@ Definition op_wf (o : op) : Prop :=
   | OpRaw _ _ b => batch_ok b
   | OpLocal _ _ v => local_wf v
   | OpSync _ => True
+  | OpSyncStream _ _ => True
   end.
 
 Lemma values_of_in : forall store ids v, In v (values_of store ids) -> exists k, sm_get store k = Some v.
@@ -527,6 +528,109 @@ Proof.
   intros st ids [_ _ Hok] v Hin. destruct (values_of_in _ _ _ Hin) as [k Hk]. apply (Hok _ _ Hk).
 Qed.
 
+(* ------------------------------------------------------------------------------------------------ *)
+(* the streamed exchange: newest-first order and chunked application do not matter                   *)
+
+Lemma insert_newest_in : forall idx x l y, In y (insert_newest idx x l) <-> y = x \/ In y l.
+Proof.
+  intros idx x l y. induction l as [|z r IH]; cbn [insert_newest In].
+  - split; [intros [H|[]]; left; symmetry; exact H | intros [H|[]]; left; symmetry; exact H].
+  - destruct (newer_first idx x z); cbn [In].
+    + split; [intros [H|H]; [left; symmetry; exact H | right; exact H]
+             | intros [H|H]; [left; symmetry; exact H | right; exact H]].
+    + rewrite IH. tauto.
+Qed.
+
+Lemma newest_first_in : forall idx ids y, In y (newest_first idx ids) <-> In y ids.
+Proof.
+  intros idx ids y. induction ids as [|x r IH]; cbn [newest_first fold_right In]; [tauto|].
+  fold (newest_first idx r). rewrite insert_newest_in, IH. split; intros [H|H]; auto.
+Qed.
+
+Lemma values_of_in_iff : forall store ids v,
+  In v (values_of store ids) <-> exists k, In k ids /\ sm_get store k = Some v.
+Proof.
+  intros store ids v. unfold values_of. rewrite in_flat_map. split.
+  - intros [k [Hk Hin]]. exists k. split; [exact Hk|].
+    destruct (sm_get store k) as [w|]; [|destruct Hin]. destruct Hin as [Hin|[]]. subst w. reflexivity.
+  - intros [k [Hk Hg]]. exists k. split; [exact Hk|]. rewrite Hg. left. reflexivity.
+Qed.
+
+Lemma values_of_newest_first : forall store idx ids v,
+  In v (values_of store (newest_first idx ids)) <-> In v (values_of store ids).
+Proof.
+  intros store idx ids v. rewrite !values_of_in_iff.
+  split; intros [k [Hk Hg]]; exists k; (split; [apply newest_first_in in Hk || apply newest_first_in; exact Hk | exact Hg]).
+Qed.
+
+(* the chunked application is a run of batches whose concatenation is the stream, in stream order *)
+Lemma stream_apply_run : forall n msgs st batch,
+  exists bs, stream_apply n st batch msgs = run_raw st bs /\ concat bs = batch ++ msgs.
+Proof.
+  intros n. induction msgs as [|m r IH]; intros st batch; cbn [stream_apply].
+  - exists [batch]. split; [reflexivity | cbn [concat]; reflexivity].
+  - destruct (n <=? length (batch ++ [m]))%nat.
+    + destruct (IH (fst (set_raw FNone st (batch ++ [m]))) []) as [bs [H1 H2]].
+      exists ((batch ++ [m]) :: bs). split; [exact H1|].
+      cbn [concat]. rewrite H2. cbn [app]. rewrite <- app_assoc. reflexivity.
+    + destruct (IH st (batch ++ [m])) as [bs [H1 H2]]. exists bs. split; [exact H1|].
+      rewrite H2, <- app_assoc. reflexivity.
+Qed.
+
+Lemma concat_batch_ok : forall bs l, concat bs = l -> batch_ok l -> forall b, In b bs -> batch_ok b.
+Proof.
+  intros bs l Hc Hok b Hb v Hv. apply Hok. rewrite <- Hc. apply in_concat. exists b. split; assumption.
+Qed.
+
+Lemma stream_apply_inv : forall n msgs st batch,
+  inv st -> batch_ok (batch ++ msgs) -> inv (stream_apply n st batch msgs).
+Proof.
+  intros n msgs st batch Hinv Hok. destruct (stream_apply_run n msgs st batch) as [bs [H1 H2]].
+  rewrite H1. apply run_raw_inv; [exact Hinv | exact (concat_batch_ok bs _ H2 Hok)].
+Qed.
+
+Lemma stream_apply_get : forall n msgs st batch s,
+  inv st -> batch_ok (batch ++ msgs) ->
+  sm_get (st_store (stream_apply n st batch msgs)) s = best s (sm_get (st_store st) s) (batch ++ msgs).
+Proof.
+  intros n msgs st batch s Hinv Hok. destruct (stream_apply_run n msgs st batch) as [bs [H1 H2]].
+  rewrite H1, run_raw_get; [rewrite H2; reflexivity | exact Hinv | exact (concat_batch_ok bs _ H2 Hok)].
+Qed.
+
+Lemma distinct_ts_incl : forall U U', (forall v, In v U' -> In v U) -> distinct_ts U -> distinct_ts U'.
+Proof. intros U U' Hi Hd v1 v2 H1 H2. apply Hd; apply Hi; assumption. Qed.
+
+(* any stream carrying the same SET of values as [pull], applied in chunks of any size, = one SetRaw(pull) *)
+Theorem stream_apply_set_raw : forall n st msgs pull,
+  inv st -> batch_ok pull -> (forall v, In v msgs <-> In v pull) -> distinct_ts (stored st ++ pull) ->
+  stream_apply n st [] msgs = fst (set_raw FNone st pull).
+Proof.
+  intros n st msgs pull Hinv Hok Hset Hd.
+  destruct (stream_apply_run n msgs st []) as [bs [H1 H2]]. cbn [app] in H2.
+  rewrite H1. change (fst (set_raw FNone st pull)) with (run_raw st [pull]).
+  assert (Hokm : batch_ok msgs) by (intros v Hv; apply Hok, Hset, Hv).
+  symmetry. apply order_free.
+  - exact Hinv.
+  - intros b [Hb|[]]. subst b. exact Hok.
+  - exact (concat_batch_ok bs _ H2 Hokm).
+  - intros v. cbn [concat]. rewrite app_nil_r, H2. symmetry. apply Hset.
+  - cbn [concat]. rewrite app_nil_r. exact Hd.
+Qed.
+
+Theorem sync_stream_eq : forall n a b,
+  inv a -> inv b -> distinct_ts (stored a ++ stored b) ->
+  sync_exchange_stream n a b = sync_exchange a b.
+Proof.
+  intros n a b Ha Hb Hd. unfold sync_exchange_stream, sync_exchange. f_equal.
+  apply stream_apply_set_raw.
+  - exact Ha.
+  - apply values_of_ok, Hb.
+  - intros v. apply values_of_newest_first.
+  - apply (distinct_ts_incl (stored a ++ stored b)); [|exact Hd].
+    intros v Hin. apply in_app_or in Hin. apply in_or_app. destruct Hin as [Hin|Hin]; [left; exact Hin|].
+    right. destruct (values_of_in _ _ _ Hin) as [k Hk]. eapply sm_get_in. exact Hk.
+Qed.
+
 Definition winv (w : world) : Prop := inv (fst w) /\ inv (snd w).
 
 Lemma wget_inv : forall w who, winv w -> inv (wget w who).
@@ -537,7 +641,7 @@ Proof. intros [a b] who s [Ha Hb] Hs. destruct who; split; cbn; assumption. Qed.
 
 Lemma step_inv : forall w o, winv w -> op_wf o -> winv (fst (step w o)).
 Proof.
-  intros w o Hw Hwf. destruct o as [who f b|who f v|who]; cbn [step op_wf] in *.
+  intros w o Hw Hwf. destruct o as [who f b|who f v|who|who n]; cbn [step op_wf] in *.
   - pose proof (set_raw_inv f (wget w who) b (wget_inv w who Hw) Hwf) as H.
     destruct (set_raw f (wget w who) b) as [s ok]. cbn [fst] in *. apply wset_inv; assumption.
   - pose proof (local_set_inv f (wget w who) v (wget_inv w who Hw) Hwf) as H.
@@ -546,6 +650,11 @@ Proof.
     pose proof (wget_inv w who Hw) as Ha. pose proof (wget_inv w (negb who) Hw) as Hb.
     apply wset_inv; [apply wset_inv; [exact Hw|]|].
     + apply set_raw_inv; [exact Ha | apply values_of_ok, Hb].
+    + apply set_raw_inv; [exact Hb | apply values_of_ok, Ha].
+  - unfold sync_exchange_stream. cbn [fst].
+    pose proof (wget_inv w who Hw) as Ha. pose proof (wget_inv w (negb who) Hw) as Hb.
+    apply wset_inv; [apply wset_inv; [exact Hw|]|].
+    + apply stream_apply_inv; [exact Ha | apply values_of_ok, Hb].
     + apply set_raw_inv; [exact Hb | apply values_of_ok, Ha].
 Qed.
 
@@ -563,7 +672,7 @@ Proof. split; apply inv_empty. Qed.
 (* a failed operation changes nothing *)
 Lemma step_failed : forall w o, winv w -> snd (step w o) = false -> fst (step w o) = w.
 Proof.
-  intros w o Hw Hf. destruct o as [who f b|who f v|who]; cbn [step] in *.
+  intros w o Hw Hf. destruct o as [who f b|who f v|who|who n]; cbn [step] in *.
   - pose proof (set_raw_failed f (wget w who) b (wget_inv w who Hw)) as H.
     destruct (set_raw f (wget w who) b) as [s ok]. cbn [fst snd] in *. rewrite (H Hf).
     destruct w as [a b0], who; reflexivity.
@@ -574,6 +683,7 @@ Proof.
       * rewrite inner_set_commit in Hf by assumption. discriminate.
       * rewrite H. unfold local_set. rewrite Hwv. cbn [fst]. destruct w as [a b0], who; reflexivity.
   - destruct (sync_exchange _ _). discriminate.
+  - destruct (sync_exchange_stream _ _ _). discriminate.
 Qed.
 
 (* ------------------------------------------------------------------------------------------------ *)
